@@ -167,6 +167,7 @@ class Hist:
         self.evs = []       # (ev, out, internal, tables)
         self.final = None
         self.pre = None     # last "pre" line without a matching "ev": the request during which the harness died
+        self.ops = []       # the ops as generated (input format of `serverharness replay`)
 
 
 def parse(out):
@@ -185,6 +186,7 @@ def parse(out):
             hists.append(cur)
         elif t == "pre" and cur is not None:
             cur.pre = o
+            cur.ops.append(o["op"])
         elif t == "ev" and cur is not None:
             cur.evs.append(o)
             cur.pre = None
@@ -287,3 +289,42 @@ def corpus_files(pid):
     if not os.path.isdir(d):
         return []
     return sorted(os.path.join(d, f) for f in os.listdir(d) if f.endswith(".json"))
+
+
+def collect(ctx, pid, gen_args_list):
+    """corpus + replay + generated runs. Returns (hists, crashes) or None when the harness does not build."""
+    runs = [("corpus:" + os.path.basename(f), ["replay", "-file", f]) for f in corpus_files(pid)]
+    if ctx.replay:
+        runs = [("replay", ["replay", "-file", ctx.replay])]
+    else:
+        runs += gen_args_list
+    hists, crashes = [], []
+    for label, args in runs:
+        res, err = run_harness(ctx, args, timeout=2400)
+        if res is None:
+            ctx.broken_tie("harness does not build against /repo", err[-2000:])
+            return None
+        rc, out = res
+        hs, done = parse(out)
+        for h in hs:
+            h.label = label
+        hists += hs
+        if not done:
+            last = hs[-1] if hs else None
+            crashes.append({"run": label, "rc": rc, "tail": out[-1500:],
+                            "request": last.pre["op"] if last is not None and last.pre else None,
+                            "replay_history": [{"id": last.id, "mode": last.init.get("mode"), "nodes": last.init.get("nodes"),
+                                                "ops": last.ops_so_far()}] if last is not None else None})
+    return hists, crashes
+
+
+def _ops_so_far(self):
+    return [self_op for self_op in getattr(self, "ops", [])]
+
+
+Hist.ops_so_far = _ops_so_far
+
+
+def replay_file_obj(h, upto=None):
+    """a history in the input format of `serverharness replay` (ops are recorded on the pre lines)"""
+    return [{"id": h.id, "mode": h.init.get("mode"), "nodes": h.init.get("nodes"), "ops": h.ops[: upto + 1 if upto is not None else None]}]
